@@ -39,15 +39,14 @@ enum Op {
     ConcatAA,    // a.concat(&a)
 }
 
-const MENU_QUICK: [Op; 10] = [
+const MENU_QUICK: [Op; 9] = [
+    Op::PushB,
     Op::GetA0,
     Op::ScriptGetA0,
     Op::PushA,
     Op::ConcatAB,
     Op::ConcatBA,
-    Op::ConcatAA,
     Op::ContainsA2,
-    Op::SwapA01,
     Op::ScriptEqAB,
     Op::ScriptEqBA,
 ];
@@ -371,20 +370,34 @@ fn list_addr(l: &List<u64>) -> usize {
     unsafe { *(l as *const List<u64> as *const usize) }
 }
 
-/// `a_low`: whether list `a` gets the lower address of the two.
-fn init_lists(a_low: bool) -> (List<u64>, List<u64>, Model) {
+/// Initial contents. Config 0: `a` pre-filled to its capacity (the next push
+/// relocates), `b` holds one element. Config 1: `a` holds one element, `b` is
+/// EMPTY (code paths that special-case an empty operand).
+#[derive(Clone, Copy, Debug, PartialEq, Eq)]
+struct Init {
+    a_low: bool,
+    config: u8,
+}
+
+fn init_lists(init: Init) -> (List<u64>, List<u64>, Model) {
     let x: List<u64> = List::new();
     let y: List<u64> = List::new();
     let x_low = list_addr(&x) < list_addr(&y);
-    let (a, b) = if x_low == a_low { (x, y) } else { (y, x) };
-    for x in [1u64, 2, 3, 4] {
-        a.push(x);
+    let (a, b) = if x_low == init.a_low { (x, y) } else { (y, x) };
+    let (va, vb): (Vec<u64>, Vec<u64>) = match init.config {
+        0 => (vec![1, 2, 3, 4], vec![5]),
+        _ => (vec![1], vec![]),
+    };
+    for x in &va {
+        a.push(*x);
     }
-    b.push(5);
-    (a, b, Model { a: vec![1, 2, 3, 4], b: vec![5] })
+    for x in &vb {
+        b.push(*x);
+    }
+    (a, b, Model { a: va, b: vb })
 }
 
-fn run_program(p: &Program, a_low: bool, bound: usize, scripts: &Scripts) -> (ProgStats, Vec<Failure>, u64) {
+fn run_program(p: &Program, init: Init, bound: usize, scripts: &Scripts) -> (ProgStats, Vec<Failure>, u64) {
     let mut failures: Vec<Failure> = vec![];
     let mut outcomes = std::collections::HashSet::new();
     let exec_no = std::cell::Cell::new(0u64);
@@ -415,7 +428,7 @@ fn run_program(p: &Program, a_low: bool, bound: usize, scripts: &Scripts) -> (Pr
     let stats = explore(
         bound,
         || {
-            let (a, b, model) = init_lists(a_low);
+            let (a, b, model) = init_lists(init);
             let calls = Arc::new(Mutex::new(Vec::<Call>::new()));
             let mut specs = vec![];
             for (tid, ops) in p.iter().enumerate() {
@@ -562,15 +575,28 @@ impl Check for C16 {
             let mut st = ProgStats::default();
             let mut failures = vec![];
             let mut n_out = 0;
-            // the lock order of a comparison depends on the address order of the
-            // two lists: both orders are explored
-            for a_low in if has_eq { vec![true, false] } else { vec![true] } {
-                let (s1, f1, n1) = run_program(p, a_low, b, &scripts);
+            // the lock order of a comparison / concatenation depends on the
+            // address order of the two lists: both orders are explored for
+            // programs that lock both. Programs that touch `b` also run from
+            // the second initial configuration (empty `b`).
+            let touches_b = p.iter().flatten().any(|o| {
+                matches!(o, Op::ConcatAB | Op::ConcatBA | Op::PushB | Op::ScriptEqAB | Op::ScriptEqBA | Op::RustEqAB | Op::RustEqBA)
+            });
+            let locks_both = has_eq || p.iter().flatten().any(|o| matches!(o, Op::ConcatAB | Op::ConcatBA));
+            let mut inits = vec![Init { a_low: true, config: 0 }];
+            if locks_both {
+                inits.push(Init { a_low: false, config: 0 });
+            }
+            if touches_b {
+                inits.push(Init { a_low: true, config: 1 });
+            }
+            for init in inits {
+                let (s1, f1, n1) = run_program(p, init, b, &scripts);
                 st.schedules += s1.schedules;
                 st.points += s1.points;
                 n_out += n1;
                 for mut f in f1 {
-                    f.detail = json!({"a_has_lower_address": a_low, "detail": f.detail});
+                    f.detail = json!({"a_has_lower_address": init.a_low, "initial": if init.config == 0 { "a=[1,2,3,4] b=[5]" } else { "a=[1] b=[]" }, "detail": f.detail});
                     failures.push(f);
                 }
             }
@@ -650,7 +676,7 @@ impl Check for C16 {
                 "shapes": sh.iter().map(|s| json!({"threads": s.threads, "ops_per_thread": s.ops,
                     "menu": menu(cfg.tier, s).iter().map(|o| o.name()).collect::<Vec<_>>(),
                     "preemption_bound": if bound(cfg.tier, s) == usize::MAX { json!("unbounded") } else { json!(bound(cfg.tier, s)) }})).collect::<Vec<_>>(),
-                "initial": {"a": [1,2,3,4], "a_capacity": 4, "b": [5]},
+                "initial": [{"a": [1,2,3,4], "a_capacity": 4, "b": [5]}, {"a": [1], "b": []}],
             }),
             states_are: "complete schedules explored".into(),
             transitions_are: "schedule points passed".into(),
